@@ -137,3 +137,40 @@ Definition dagree (v : view) (c : dcase) : bool :=
 Definition ddisagreements (v : view) (cs : list dcase) : list N :=
   (bad (dagree v) cs 0%N ++ bad (dagree VFull) cs 1000000%N)%list.
 
+
+(* ---- the receive loop ---- *)
+Inductive lobs :=
+| LORecv (i : nat)
+| LOSend (id : json)              (* a reply frame written, with the id it carries *)
+| LOEndSame                       (* start() ended by raising the very exception recv raised *)
+| LOEndOther.                     (* start() returned or raised something else *)
+
+Record lcase := mkL { lc_cfg : cfg; lc_frames : list loads_outcome; lc_obs : list lobs }.
+
+Definition loop_view (l : list (loop_event)) : list lobs :=
+  flat_map (fun e => match e with
+                     | LRecv i => [LORecv i]
+                     | LEv (EvResult id _) | LEv (EvError id _ _) => [LOSend id]
+                     | LEv _ => []
+                     | LEnd true => [LOEndSame]
+                     | LEnd false => [LOEndOther]
+                     end) l.
+
+Definition lobs_eqb (a b : lobs) : bool :=
+  match a, b with
+  | LORecv i, LORecv j => Nat.eqb i j
+  | LOSend x, LOSend y => json_sameb false x y
+  | LOEndSame, LOEndSame | LOEndOther, LOEndOther => true
+  | _, _ => false
+  end.
+
+Fixpoint lobs_list_eqb (a b : list lobs) : bool :=
+  match a, b with
+  | [], [] => true
+  | x :: r, y :: s => lobs_eqb x y && lobs_list_eqb r s
+  | _, _ => false
+  end.
+
+Definition lagree (c : lcase) : bool :=
+  lobs_list_eqb (loop_view (start shipped actions_of (lc_cfg c) (lc_frames c))) (lc_obs c).
+Definition ldisagreements (cs : list lcase) : list N := bad lagree cs 0%N.
